@@ -631,7 +631,7 @@ pub fn inter(rec: &mut Recorder, rng: &mut Rng, thorough: bool) {
     }
 }
 
-fn ops_str(ops: &[rq::SymbolOps]) -> String {
+pub fn ops_str(ops: &[rq::SymbolOps]) -> String {
     ops.iter()
         .map(|op| match op {
             rq::SymbolOps::AddAssign { dest, src } => format!("a:{dest}:{src}"),
